@@ -433,6 +433,7 @@ theorem LK.applyFront {s : BSt} (h : LK s) (f : FOp) : LK (Backend.applyFront s 
   | query => exact h
 
 theorem LK.closed : PC.Closed LK where
+  lastFlush := fun _ _ h => h.frame rfl rfl
   siteCnt := fun _ _ h => h.frame rfl rfl
   emitInj := fun _ _ _ _ _ h => h.frame rfl rfl
   clock := fun _ _ h => h.frame rfl rfl
